@@ -50,7 +50,7 @@ def shared(E, shape):
     return types.SimpleNamespace(E=E, user=user, spec=spec, kw=kw, x0=x0, y0=y0, pol=shape.get("policy", "DualNorm"), K=shape["K"], point_faults=bool(shape.get("point_faults")))
 
 
-def solve_once(env, tag, overrides, script=None, solver=None, observers=None):
+def solve_once(env, tag, overrides, script=None, solver=None, observers=None, x0_arr=None):
     """one real solve.  script=None: the oracle invents outputs (recorded); otherwise it replays
     the recorded outputs of the reference run"""
     E = env.E
@@ -134,7 +134,7 @@ def solve_once(env, tag, overrides, script=None, solver=None, observers=None):
         lg.propagate = False
         lg.setLevel(logging.DEBUG if observers["debug"] == "DEBUG" else logging.INFO)
     try:
-        run.res = solver.solve(arr(env.x0), arr(env.y0) if env.spec["m"] else None)
+        run.res = solver.solve(arr(env.x0) if x0_arr is None else x0_arr, arr(env.y0) if env.spec["m"] else None)
     except Exception as e:
         if "Inverse step size" in str(e) and type(e) is Exception:
             run.exc = "lamb_max"
@@ -479,3 +479,27 @@ def h_observers(E, shape):
             for g, t in zip(got, R.trials):
                 ok = ok and (g[1] is t["it"]) and (g[2] is t["nxt"])
             E.prove(ok, "C12.callback_announces_this_step", info=dict(observer=name, run=run_no))
+
+
+def h_restart_buffer(E, shape):
+    """C10 "depends only on the starting point handed in": a multi-start loop that reuses ONE array
+    for the start point -- solve, overwrite the array in place with another point, solve again on the
+    same Solver.  The second solve starts from the transformed NEW point (and, the step oracle
+    replaying by value, both solves are judged against the same reference)."""
+    env = shared(E, shape)
+    lim = dict(iteration_limit=env.K)
+    n = env.spec["n"]
+    buf = arr(env.x0)
+    A = solve_once(env, "a", lim, x0_arr=buf)
+    x1 = []
+    for j in range(n):
+        v = E.real(f"x1_{j}")
+        E.assume(land(env.spec["xl"][j] <= v, v <= env.spec["xu"][j]))
+        x1.append(v)
+    buf[:] = arr(x1)
+    B = solve_once(env, "b", lim, solver=A.solver, x0_arr=buf)
+    if B.start is None:
+        E.prove(False, "C10.second_solve_starts_from_the_point_handed_in", info="no start iterate was built")
+        return
+    E.prove(B.start is not A.start and common.eq_all(items(B.start.x)[:n], x1), "C10.second_solve_starts_from_the_point_handed_in")
+    E.prove(common.eq_all(items(buf), x1), "C11.start_point_unchanged")
